@@ -1267,7 +1267,7 @@ func (r *replicateChannelHandler) innerHandleReplicateMsg(forward bool, msg *api
 		verifPoint("enter", r.getTSManagerChannelKey(r.targetPChannel), msg)
 	}
 	msgPack := msg.MsgPack
-	p := r.handlePack(forward, msgPack, msg.TaskID)
+	p := r.handleStreamPack(forward, msgPack, msg.TaskID, msg.PChannelName)
 	if p == nil || p == api.EmptyMsgPack {
 		verifPoint("done-empty", r.getTSManagerChannelKey(r.targetPChannel), msg)
 		return
@@ -1460,6 +1460,11 @@ func isSupportedMsgType(msgType commonpb.MsgType) bool {
 }
 
 func (r *replicateChannelHandler) handlePack(forward bool, pack *msgstream.MsgPack, taskID string) *api.ReplicateMsg {
+	return r.handleStreamPack(forward, pack, taskID, "")
+}
+
+// handleStreamPack is handlePack for a pack read from the stream of source pchannel readPChannel ("" if unknown).
+func (r *replicateChannelHandler) handleStreamPack(forward bool, pack *msgstream.MsgPack, taskID string, readPChannel string) *api.ReplicateMsg {
 	sort.Slice(pack.Msgs, func(i, j int) bool {
 		return pack.Msgs[i].BeginTs() < pack.Msgs[j].BeginTs() ||
 			(pack.Msgs[i].BeginTs() == pack.Msgs[j].BeginTs() && pack.Msgs[i].Type() == commonpb.MsgType_Delete)
@@ -1714,6 +1719,11 @@ func (r *replicateChannelHandler) handlePack(forward bool, pack *msgstream.MsgPa
 		}
 		originPosition := msg.Position()
 		originPositionPChannel := funcutil.ToPhysicalChannel(originPosition.GetChannelName())
+		if originPosition == nil && readPChannel != "" {
+			// the tt msgstream / dispatcher of recent Milvus versions hands messages over without a position:
+			// the message then belongs to the stream the pack was read from
+			originPositionPChannel = readPChannel
+		}
 		streamPChannel = originPositionPChannel
 		positionChannel := info.PChannel
 		if IsVirtualChannel(originPosition.GetChannelName()) {
